@@ -27,6 +27,28 @@ def spec_stats(spec):
             "deleting_jobs": sum(1 for j in spec["jobs"].values() if j["data_stored"]["m"] < 0)}
 
 
+def probe_fixed_count(spec, obs, rng):
+    """the same model with a user-fixed instance count placed around the computed need (peak, last
+    hour, in between, one below the peak) on a storage or an on-premise server"""
+    import copy
+    import math
+    servers, storages, _ = sysoracles.reachable(spec)
+    cands = [("storages", n) for n in storages] + [("servers", n) for n in servers if spec["servers"][n]["server_type"] == "on-premise"]
+    rng.shuffle(cands)
+    for kind, name in cands:
+        raw = obs.get((name, "raw_nb_of_instances", ""))
+        if raw is None or raw["t"] != "h" or not raw["vs"]:
+            continue
+        vals = [float(v) * float(raw["scale"]) for v in raw["vs"]]
+        peak, last = math.ceil(max(vals)), math.ceil(vals[-1])
+        choices = [peak, peak + 1, max(1, peak - 1), max(1, last), max(1, (last + peak) // 2)]
+        f = rng.choice(choices)
+        sp = copy.deepcopy(spec)
+        sp[kind][name]["fixed_nb_of_instances"] = {"m": float(f), "u": "dimensionless"}
+        return sp
+    return None
+
+
 def run_shard(args):
     """args = (seed, n, oracle names, generator kwargs, do_kcalc)"""
     seed, n, oracles, genkw, do_kcalc = args
@@ -34,9 +56,16 @@ def run_shard(args):
     out = {"cases": 0, "built": 0, "observations": 0, "disagreements": [], "violations": [], "inconclusive": 0,
            "errors": {}, "stats": [], "samples": [], "hashes": [], "oracle_evals": 0}
     cases = []
+    genkw = dict(genkw)
+    probe_fixed = genkw.pop("probe_fixed", False)
     for i in range(n):
         spec = specgen.gen_safe_spec(rng, realsys.unit_info, **genkw)
         st, obs, rs = kcalc.real_outcome(spec)
+        if probe_fixed and st == "ok" and rng.random() < 0.6:
+            spec2 = probe_fixed_count(spec, obs, rng)
+            if spec2 is not None:
+                spec = spec2
+                st, obs, rs = kcalc.real_outcome(spec)
         cases.append((spec, st, obs, rs))
         out["cases"] += 1
         out["hashes"].append(spec_hash(spec))
